@@ -1,13 +1,13 @@
 (* C11 - a consumer ends with exactly one terminal message and nothing after it.
    This file only pins statements. *)
-From Amq Require Import Lib.Base Gen.Consts Model.Wire Model.Frames Model.OutBuf Model.Collector Model.Slots Model.Core Spec.Slots Spec.Content Proofs.Slots Proofs.OutBuf Proofs.Collector Proofs.CoreContent Proofs.CoreInv Proofs.CoreMore Model.CancelRace Proofs.CancelRace Check.Core Proofs.Examples Model.Consumer Proofs.Consumer.
+From Amq Require Import Lib.Base Gen.Consts Model.Wire Model.Frames Model.OutBuf Model.Collector Model.Slots Model.Core Spec.Slots Spec.Content Proofs.Slots Proofs.OutBuf Proofs.Collector Proofs.CoreContent Proofs.CoreInv Proofs.CoreMore Model.CancelRace Proofs.CancelRace Check.Core Proofs.Examples Model.Consumer Proofs.Consumer Lib.RsVal Gen.SrcConsumer Proofs.ConsumerSrc.
 
 (* CancelOk for tag: the caller gets the reply, the consumer's queue gets ClientCancelled appended (history = history ++ [ClientCancelled]), its sender is dropped in the same step, the tag leaves the table *)
-Theorem C11_client_cancel : forall (n : N) (tag dbg : str) (c : core) (s : slot) (q : N), steady c -> n <> 0 -> alookup n (c_slots c) = Some s -> lookup_tag tag (s_consumers s) = Some q -> q <> s_reply s -> has_room (s_reply s) (c_qs c) -> receivable q (c_qs c) -> exists c' : core, process c (FMethod n (MCancelOk tag), dbg) = (OOk, c') /\ (exists s' : slot, alookup n (c_slots c') = Some s' /\ lookup_tag tag (s_consumers s') = None) /\ (exists qu qu' : queue, alookup q (c_qs c) = Some qu /\ alookup q (c_qs c') = Some qu' /\ q_hist qu' = q_hist qu ++ [IClientCancelled] /\ q_tx qu' = false).
+Theorem C11_client_cancel : forall (n : N) (tag dbg : str) (c : core) (s : slot) (q : N), steady c -> n <> 0 -> alookup n (c_slots c) = Some s -> lookup_tag tag (s_consumers s) = Some q -> q <> s_reply s -> has_room (s_reply s) (c_qs c) -> receivable q (c_qs c) -> exists c' : core, process c (FMethod n (MCancelOk tag), dbg) = (OOk, c') /\ (exists s' : slot, alookup n (c_slots c') = Some s' /\ lookup_tag tag (s_consumers s') = None) /\ (exists qu qu' : queue, alookup q (c_qs c) = Some qu /\ alookup q (c_qs c') = Some qu' /\ q_hist qu' = (q_hist qu ++ [IClientCancelled])%list /\ q_tx qu' = false).
 Proof. exact cancel_ok_effect. Qed.
 
 (* server Cancel for tag: ServerCancelled appended, sender dropped, tag removed; CancelOk queued exactly when the server did not say nowait *)
-Theorem C11_server_cancel : forall (n : N) (tag : str) (nowait : bool) (dbg : str) (c : core) (s : slot) (q : N), steady c -> n <> 0 -> alookup n (c_slots c) = Some s -> lookup_tag tag (s_consumers s) = Some q -> receivable q (c_qs c) -> exists c' : core, process c (FMethod n (MCancel tag nowait), dbg) = (OOk, c') /\ c_out c' = (if nowait then c_out c else ob_append (c_out c) (ser_cancel_ok n tag)) /\ (exists s' : slot, alookup n (c_slots c') = Some s' /\ lookup_tag tag (s_consumers s') = None) /\ (exists qu qu' : queue, alookup q (c_qs c) = Some qu /\ alookup q (c_qs c') = Some qu' /\ q_hist qu' = q_hist qu ++ [IServerCancelled] /\ q_tx qu' = false).
+Theorem C11_server_cancel : forall (n : N) (tag : str) (nowait : bool) (dbg : str) (c : core) (s : slot) (q : N), steady c -> n <> 0 -> alookup n (c_slots c) = Some s -> lookup_tag tag (s_consumers s) = Some q -> receivable q (c_qs c) -> exists c' : core, process c (FMethod n (MCancel tag nowait), dbg) = (OOk, c') /\ c_out c' = (if nowait then c_out c else ob_append (c_out c) (ser_cancel_ok n tag)) /\ (exists s' : slot, alookup n (c_slots c') = Some s' /\ lookup_tag tag (s_consumers s') = None) /\ (exists qu qu' : queue, alookup q (c_qs c) = Some qu /\ alookup q (c_qs c') = Some qu' /\ q_hist qu' = (q_hist qu ++ [IServerCancelled])%list /\ q_tx qu' = false).
 Proof. exact server_cancel_effect. Qed.
 
 (* once the tag is out of the table nothing can follow: a delivery for it is not delivered to anybody (UnknownConsumerTag) *)
@@ -38,6 +38,14 @@ Proof. exact reply_first_refuted. Qed.
 Theorem C11_cancel_issued_once : forall (o : cons_op) (ops : list cons_op), cons_run false (o :: ops) = 1.
 Proof. exact cancel_issued_once. Qed.
 
+(* THE MODEL IS THE SOURCE: Consumer::cancel of src/consumer.rs as translated from the source text on every run (Gen/SrcConsumer.v, tools/rs2sm.py; the `cancelled` flag is a Cell) is the model's cons_step - the consumer is marked cancelled BEFORE Basic.Cancel is issued, an already cancelled consumer issues nothing and returns Ok, otherwise exactly one Basic.Cancel is issued and its result returned *)
+Theorem C11_cancel_source_is_model : forall (r : val) (b : bool) (k : N), gen_Consumer_cancel (ext_st_model r) (enc_self b k) = (enc_self (fst (cons_step b CnCancel)) (k + snd (cons_step b CnCancel)), if b then VC "Ok" [VC "()" []] else r).
+Proof. exact cancel_source_is_model. Qed.
+
+(* ... and impl Drop for Consumer is cancel() with the result ignored (seed C11g added a try_recv to cancel: outside the subset, the obligation breaks) *)
+Theorem C11_drop_source_is_model : forall (r : val) (b : bool) (k : N), gen_Consumer_drop (ext_st_model r) (enc_self b k) = (enc_self (fst (cons_step b CnDrop)) (k + snd (cons_step b CnDrop)), VC "()" []).
+Proof. exact drop_source_is_model. Qed.
+
 (* non-vacuity of C11_cancel_ok_effect: the server confirms the cancel of consumer "t" on
    channel 1: the tag leaves the table, the consumer's queue ends with ClientCancelled and has
    no sender left, the caller has its CancelOk, consumer "u" on channel 2 is untouched *)
@@ -50,8 +58,8 @@ Example C11_example :
                  (1, [IAllocOk 1; IAllocOk 2], true); (0, [], true)].
 Proof. vm_compute. repeat split. Qed.
 
-Check C11_client_cancel : forall (n : N) (tag dbg : str) (c : core) (s : slot) (q : N), steady c -> n <> 0 -> alookup n (c_slots c) = Some s -> lookup_tag tag (s_consumers s) = Some q -> q <> s_reply s -> has_room (s_reply s) (c_qs c) -> receivable q (c_qs c) -> exists c' : core, process c (FMethod n (MCancelOk tag), dbg) = (OOk, c') /\ (exists s' : slot, alookup n (c_slots c') = Some s' /\ lookup_tag tag (s_consumers s') = None) /\ (exists qu qu' : queue, alookup q (c_qs c) = Some qu /\ alookup q (c_qs c') = Some qu' /\ q_hist qu' = q_hist qu ++ [IClientCancelled] /\ q_tx qu' = false).
-Check C11_server_cancel : forall (n : N) (tag : str) (nowait : bool) (dbg : str) (c : core) (s : slot) (q : N), steady c -> n <> 0 -> alookup n (c_slots c) = Some s -> lookup_tag tag (s_consumers s) = Some q -> receivable q (c_qs c) -> exists c' : core, process c (FMethod n (MCancel tag nowait), dbg) = (OOk, c') /\ c_out c' = (if nowait then c_out c else ob_append (c_out c) (ser_cancel_ok n tag)) /\ (exists s' : slot, alookup n (c_slots c') = Some s' /\ lookup_tag tag (s_consumers s') = None) /\ (exists qu qu' : queue, alookup q (c_qs c) = Some qu /\ alookup q (c_qs c') = Some qu' /\ q_hist qu' = q_hist qu ++ [IServerCancelled] /\ q_tx qu' = false).
+Check C11_client_cancel : forall (n : N) (tag dbg : str) (c : core) (s : slot) (q : N), steady c -> n <> 0 -> alookup n (c_slots c) = Some s -> lookup_tag tag (s_consumers s) = Some q -> q <> s_reply s -> has_room (s_reply s) (c_qs c) -> receivable q (c_qs c) -> exists c' : core, process c (FMethod n (MCancelOk tag), dbg) = (OOk, c') /\ (exists s' : slot, alookup n (c_slots c') = Some s' /\ lookup_tag tag (s_consumers s') = None) /\ (exists qu qu' : queue, alookup q (c_qs c) = Some qu /\ alookup q (c_qs c') = Some qu' /\ q_hist qu' = (q_hist qu ++ [IClientCancelled])%list /\ q_tx qu' = false).
+Check C11_server_cancel : forall (n : N) (tag : str) (nowait : bool) (dbg : str) (c : core) (s : slot) (q : N), steady c -> n <> 0 -> alookup n (c_slots c) = Some s -> lookup_tag tag (s_consumers s) = Some q -> receivable q (c_qs c) -> exists c' : core, process c (FMethod n (MCancel tag nowait), dbg) = (OOk, c') /\ c_out c' = (if nowait then c_out c else ob_append (c_out c) (ser_cancel_ok n tag)) /\ (exists s' : slot, alookup n (c_slots c') = Some s' /\ lookup_tag tag (s_consumers s') = None) /\ (exists qu qu' : queue, alookup q (c_qs c) = Some qu /\ alookup q (c_qs c') = Some qu' /\ q_hist qu' = (q_hist qu ++ [IServerCancelled])%list /\ q_tx qu' = false).
 Check C11_nothing_after : forall (n : N) (tag : str) (dtag : N) (red : bool) (exch rk : str) (props : N) (dbg : str) (c : core) (s : slot), steady c -> n <> 0 -> alookup n (c_slots c) = Some s -> s_coll s = CStart (CDeliver tag dtag red exch rk) -> lookup_tag tag (s_consumers s) = None -> fst (process c (FHeader n 0 props, dbg)) = OErr (EUnknownConsumerTag n tag).
 Check C11_deliveries_in_order : forall (n : N) (c : core) (s : slot) (tag : str) (dtag : N) (red : bool) (exch rk : str) (props : N) (parts : list bytes) (q : N), steady c -> n <> 0 -> alookup n (c_slots c) = Some s -> s_coll s = CNone -> lookup_tag tag (s_consumers s) = Some q -> receivable q (c_qs c) -> valid_parts parts -> exists c' : core, process_all c (map (df n) (crender (CDeliver tag dtag red exch rk) props parts)) = (OOk, c') /\ upd n s (pushed q (IDelivery {| m_ch := n; m_dtag := dtag; m_redelivered := red; m_exch := exch; m_rk := rk; m_body := concat parts; m_props := props |}) (c_qs c)) c c'.
 Check C11_no_panic : forall (c : core) (f : dframe) (o : outcome) (c' : core), process c f = (o, c') -> WFs c -> (forall site : N, o <> OPanic site) /\ WFs c'.
@@ -59,6 +67,8 @@ Check C11_notice_before_release : forall sched : list actor, let s := rrun (rini
 Check C11_released_after_notice : forall sched : list actor, let s := rrun (rinit order_now) sched in r_caller s <> Blocked -> r_notified s = true.
 Check C11_answer_first_refuted : exists sched : list actor, r_failed (rrun (rinit order_before) sched) = true.
 Check C11_cancel_issued_once : forall (o : cons_op) (ops : list cons_op), cons_run false (o :: ops) = 1.
+Check C11_cancel_source_is_model : forall (r : val) (b : bool) (k : N), gen_Consumer_cancel (ext_st_model r) (enc_self b k) = (enc_self (fst (cons_step b CnCancel)) (k + snd (cons_step b CnCancel)), if b then VC "Ok" [VC "()" []] else r).
+Check C11_drop_source_is_model : forall (r : val) (b : bool) (k : N), gen_Consumer_drop (ext_st_model r) (enc_self b k) = (enc_self (fst (cons_step b CnDrop)) (k + snd (cons_step b CnDrop)), VC "()" []).
 
 Print Assumptions C11_client_cancel.
 Print Assumptions C11_server_cancel.
@@ -69,4 +79,6 @@ Print Assumptions C11_notice_before_release.
 Print Assumptions C11_released_after_notice.
 Print Assumptions C11_answer_first_refuted.
 Print Assumptions C11_cancel_issued_once.
+Print Assumptions C11_cancel_source_is_model.
+Print Assumptions C11_drop_source_is_model.
 Print Assumptions C11_example.
